@@ -54,6 +54,7 @@ pub const FAMILIES: &[(&str, u64)] = &[
     ("borrow", 16),
     ("make_dwo", 32),
     ("dwp_unit_sections", 13),
+    ("dwp_unit_sections_v2", 13),
 ];
 
 pub fn total_indices() -> u64 {
@@ -273,15 +274,19 @@ pub fn run(case: &Case, ctx: &mut Ctx<'_>) {
                 ctx.errs += 1;
             }
         }
-        "dwp_load" | "dwp_unit_sections" => {
-            // index sections must parse: hand out real (empty-table) indexes for them
-            let idx = index_bytes();
+        "dwp_load" | "dwp_unit_sections" | "dwp_unit_sections_v2" => {
+            // index sections must parse: hand out real indexes for them, with different
+            // geometry for the CU and the TU index
+            let v2 = case.family == "dwp_unit_sections_v2";
+            let cu_idx = index_bytes(v2, false);
+            let tu_idx = index_bytes(v2, true);
             let empty: R = EndianSlice::new(&[], LittleEndian);
             let r: Result<DwarfPackage<R>, gimli::Error> = DwarfPackage::load(
                 |id| {
                     let r = loader.load(id)?;
                     Ok(match id {
-                        SectionId::DebugCuIndex | SectionId::DebugTuIndex => EndianSlice::new(&idx, LittleEndian),
+                        SectionId::DebugCuIndex => EndianSlice::new(&cu_idx, LittleEndian),
+                        SectionId::DebugTuIndex => EndianSlice::new(&tu_idx, LittleEndian),
                         _ => r,
                     })
                 },
@@ -301,49 +306,9 @@ pub fn run(case: &Case, ctx: &mut Ctx<'_>) {
                 expect_section(ctx, "dwp", &p.debug_loclists, &m);
                 expect_section(ctx, "dwp", &p.debug_rnglists, &m);
                 expect_section(ctx, "dwp", &p.debug_types, &m);
-                if case.family == "dwp_unit_sections" {
-                    // a unit fetched from the package: every contribution is the indexed
-                    // window of the package's own section; addr/ranges/sup come from the parent
+                if case.family != "dwp_load" {
                     let parent: Dwarf<R> = Dwarf::load(|id| -> Result<R, gimli::Error> { Ok(EndianSlice::new(m2.get(id), LittleEndian)) }).unwrap();
-                    match p.cu_sections(1, &parent) {
-                        Ok(d) => {
-                            let win = |id: SectionId, k: usize| -> (&[u8], usize, usize) { (m.get(id), 4 * (k + 1), 8 + k) };
-                            let cols: [(SectionId, &[u8]); 7] = [
-                                (SectionId::DebugInfo, d.debug_info.reader().slice()),
-                                (SectionId::DebugAbbrev, d.debug_abbrev.reader().slice()),
-                                (SectionId::DebugLine, d.debug_line.reader().slice()),
-                                (SectionId::DebugLocLists, &[]),
-                                (SectionId::DebugStrOffsets, d.debug_str_offsets.reader().slice()),
-                                (SectionId::DebugMacro, d.debug_macro.reader().slice()),
-                                (SectionId::DebugRngLists, d.ranges.debug_rnglists().reader().slice()),
-                            ];
-                            for (k, (id, got)) in cols.iter().enumerate() {
-                                let (buf, off, size) = win(*id, k);
-                                if *id == SectionId::DebugLocLists {
-                                    let r = d.locations.lookup_offset_id(ReaderOffsetId(buf[off..].as_ptr() as u64));
-                                    if r != Some((SectionId::DebugLocLists, 0)) {
-                                        ctx.violate("c17_routing", format!("dwp unit: .debug_loclists window resolves to {:?}", r));
-                                    }
-                                    continue;
-                                }
-                                let want = &buf[off..off + size];
-                                ev!(ctx, "dwp unit {} window {}+{}", id.name(), off, size);
-                                if *got != want || got.as_ptr() != want.as_ptr() {
-                                    ctx.violate("c17_routing", format!("dwp unit: {} contribution is not window {}+{} of the package's {}", id.name(), off, size, id.name()));
-                                }
-                            }
-                            expect_section(ctx, "dwp unit", &d.debug_str, &m);
-                            expect_section(ctx, "dwp unit", &d.debug_addr, &m2);
-                            expect_section(ctx, "dwp unit", d.ranges.debug_ranges(), &m2);
-                            if d.file_type != DwarfFileType::Dwo {
-                                ctx.violate("c17_routing", "dwp unit is not marked Dwo".into());
-                            }
-                            if !d.debug_aranges.reader().is_empty() || !d.debug_line_str.reader().is_empty() || !d.debug_names.reader().is_empty() {
-                                ctx.violate("c17_routing", "dwp unit: sections absent from packages are not empty".into());
-                            }
-                        }
-                        Err(e) => ctx.violate("c17_routing", format!("cu_sections(1) failed: {:?}", crate::ctx::err_name(&e))),
-                    }
+                    check_units(ctx, &p, &parent, &m, &m2, v2);
                 }
             } else {
                 ctx.errs += 1;
@@ -473,21 +438,225 @@ fn check_content<'a>(ctx: &mut Ctx<'_>, what: &str, d: &Dwarf<R<'a>>, m: &Marker
     }
 }
 
-/// A v5 index with one unit and seven section columns; row 1 gives column k the window
-/// (offset 4*(k+1), size 8+k).
-fn index_bytes() -> Vec<u8> {
+/// Section columns of the generated indexes: (DW_SECT value, section type).
+fn index_columns(v2: bool, tu: bool) -> Vec<(u32, SectionId)> {
+    match (v2, tu) {
+        (false, false) => vec![
+            (1, SectionId::DebugInfo),
+            (3, SectionId::DebugAbbrev),
+            (4, SectionId::DebugLine),
+            (5, SectionId::DebugLocLists),
+            (6, SectionId::DebugStrOffsets),
+            (7, SectionId::DebugMacro),
+            (8, SectionId::DebugRngLists),
+        ],
+        (false, true) => vec![
+            (1, SectionId::DebugInfo),
+            (3, SectionId::DebugAbbrev),
+            (4, SectionId::DebugLine),
+            (6, SectionId::DebugStrOffsets),
+        ],
+        (true, false) => vec![
+            (1, SectionId::DebugInfo),
+            (3, SectionId::DebugAbbrev),
+            (4, SectionId::DebugLine),
+            (5, SectionId::DebugLoc),
+            (6, SectionId::DebugStrOffsets),
+            (7, SectionId::DebugMacinfo),
+            (8, SectionId::DebugMacro),
+        ],
+        (true, true) => vec![
+            (2, SectionId::DebugTypes),
+            (3, SectionId::DebugAbbrev),
+            (4, SectionId::DebugLine),
+            (6, SectionId::DebugStrOffsets),
+        ],
+    }
+}
+
+/// Signatures of the two units of each index, in row order (row 1, row 2). All four
+/// hash to different primary slots of a four-slot table.
+fn index_sigs(tu: bool) -> [u64; 2] {
+    if tu {
+        [0xbbbb_0000_0000_0007, 0xbbbb_0003_0000_0004]
+    } else {
+        [0x1111_0000_0000_0001, 0x1111_0001_0000_0002]
+    }
+}
+
+/// Window of column k in row `row` (1-based) of the CU or TU index.
+fn index_window(tu: bool, row: u32, k: usize) -> (usize, usize) {
+    let t = tu as usize;
+    let r = (row - 1) as usize;
+    (1 + 2 * t + 7 * r + 3 * k, 3 + k + 2 * t + 4 * r)
+}
+
+/// A version 5 or 2 index with two units in a four-slot hash table.
+fn index_bytes(v2: bool, tu: bool) -> Vec<u8> {
+    let cols = index_columns(v2, tu);
+    let sigs = index_sigs(tu);
     let mut a = Asm::new(false);
-    a.u16(5).u16(0).u32(7).u32(1).u32(2);
-    a.u64(0x1234).u64(0);
-    a.u32(1).u32(0);
-    for s in [1u32, 3, 4, 5, 6, 7, 8] {
-        a.u32(s);
+    if v2 {
+        a.u32(2);
+    } else {
+        a.u16(5).u16(0);
     }
-    for k in 0..7u32 {
-        a.u32(4 * (k + 1));
+    a.u32(cols.len() as u32).u32(2).u32(4);
+    let mut slots = [(0u64, 0u32); 4];
+    for (r, sig) in sigs.iter().enumerate() {
+        let slot = (sig & 3) as usize;
+        assert_eq!(slots[slot].0, 0);
+        slots[slot] = (*sig, r as u32 + 1);
     }
-    for k in 0..7u32 {
-        a.u32(8 + k);
+    for s in &slots {
+        a.u64(s.0);
+    }
+    for s in &slots {
+        a.u32(s.1);
+    }
+    for c in &cols {
+        a.u32(c.0);
+    }
+    for row in 1..=2u32 {
+        for k in 0..cols.len() {
+            a.u32(index_window(tu, row, k).0 as u32);
+        }
+    }
+    for row in 1..=2u32 {
+        for k in 0..cols.len() {
+            a.u32(index_window(tu, row, k).1 as u32);
+        }
     }
     a.v
+}
+
+/// The accessor-visible bytes of one section type of a per-unit `Dwarf`.
+fn unit_field<'a>(d: &Dwarf<R<'a>>, id: SectionId) -> Option<&'a [u8]> {
+    Some(match id {
+        SectionId::DebugAbbrev => d.debug_abbrev.reader().slice(),
+        SectionId::DebugInfo => d.debug_info.reader().slice(),
+        SectionId::DebugLine => d.debug_line.reader().slice(),
+        SectionId::DebugStrOffsets => d.debug_str_offsets.reader().slice(),
+        SectionId::DebugMacinfo => d.debug_macinfo.reader().slice(),
+        SectionId::DebugMacro => d.debug_macro.reader().slice(),
+        SectionId::DebugRngLists => d.ranges.debug_rnglists().reader().slice(),
+        SectionId::DebugTypes => d.debug_types.reader().slice(),
+        _ => return None,
+    })
+}
+
+/// Every unit of both indexes, by row and by signature: each contribution of the
+/// per-unit `Dwarf` is the indexed window of the package's section of the same type
+/// (the window of *this* index, row and column), everything the index has no column for
+/// is empty, and .debug_str / .debug_addr / .debug_ranges come from the package / parent.
+fn check_units<'a>(ctx: &mut Ctx<'_>, p: &DwarfPackage<R<'a>>, parent: &Dwarf<R<'a>>, m: &Markers, m2: &Markers, v2: bool) {
+    const WINDOWED: [SectionId; 10] = [
+        SectionId::DebugAbbrev,
+        SectionId::DebugInfo,
+        SectionId::DebugLine,
+        SectionId::DebugLoc,
+        SectionId::DebugLocLists,
+        SectionId::DebugStrOffsets,
+        SectionId::DebugMacinfo,
+        SectionId::DebugMacro,
+        SectionId::DebugRngLists,
+        SectionId::DebugTypes,
+    ];
+    for tu in [false, true] {
+        let cols = index_columns(v2, tu);
+        let sigs = index_sigs(tu);
+        for row in 1..=2u32 {
+            for by_sig in [false, true] {
+                let what = format!(
+                    "dwp v{} {}({})",
+                    if v2 { 2 } else { 5 },
+                    match (tu, by_sig) {
+                        (false, false) => "cu_sections",
+                        (false, true) => "find_cu",
+                        (true, false) => "tu_sections",
+                        (true, true) => "find_tu",
+                    },
+                    row
+                );
+                let sig = sigs[(row - 1) as usize];
+                let r = match (tu, by_sig) {
+                    (false, false) => p.cu_sections(row, parent).map(Some),
+                    (false, true) => p.find_cu(gimli::DwoId(sig), parent),
+                    (true, false) => p.tu_sections(row, parent).map(Some),
+                    (true, true) => p.find_tu(gimli::DebugTypeSignature(sig), parent),
+                };
+                let d = match r {
+                    Ok(Some(d)) => d,
+                    Ok(None) => {
+                        ctx.violate("c17_routing", format!("{}: present signature {:#x} not found", what, sig));
+                        continue;
+                    }
+                    Err(e) => {
+                        ctx.violate("c17_routing", format!("{} failed: {}", what, crate::ctx::err_name(&e)));
+                        continue;
+                    }
+                };
+                ctx.item();
+                for id in WINDOWED {
+                    let col = cols.iter().position(|c| c.1 == id);
+                    let buf = m.get(id);
+                    match (col, unit_field(&d, id)) {
+                        (Some(k), Some(got)) => {
+                            let (off, size) = index_window(tu, row, k);
+                            let want = &buf[off..off + size];
+                            ev!(ctx, "{} {} window {}+{}", what, id.name(), off, size);
+                            if got != want || got.as_ptr() != want.as_ptr() {
+                                ctx.violate(
+                                    "c17_routing",
+                                    format!("{}: {} contribution is not window {}+{} of the package's {}", what, id.name(), off, size, id.name()),
+                                );
+                            }
+                        }
+                        (None, Some(got)) => {
+                            if !got.is_empty() {
+                                ctx.violate("c17_routing", format!("{}: {} has no column in this index but {} bytes were contributed", what, id.name(), got.len()));
+                            }
+                        }
+                        (Some(k), None) => {
+                            // .debug_loc / .debug_loclists have no accessor: pointer identity
+                            let (off, _) = index_window(tu, row, k);
+                            let r = d.locations.lookup_offset_id(ReaderOffsetId(buf[off..].as_ptr() as u64));
+                            ev!(ctx, "{} {} window at {} -> {:?}", what, id.name(), off, r);
+                            if r != Some((id, 0)) {
+                                ctx.violate("c17_routing", format!("{}: {} window resolves to {:?}", what, id.name(), r));
+                            }
+                        }
+                        (None, None) => {
+                            // no column: no byte of the package's section may be reachable
+                            let r = d.locations.lookup_offset_id(ReaderOffsetId(buf[1..].as_ptr() as u64));
+                            if r.is_some() {
+                                ctx.violate("c17_routing", format!("{}: {} has no column but resolves to {:?}", what, id.name(), r));
+                            }
+                        }
+                    }
+                }
+                expect_section(ctx, &what, &d.debug_str, m);
+                expect_section(ctx, &what, &d.debug_addr, m2);
+                expect_section(ctx, &what, d.ranges.debug_ranges(), m2);
+                if d.file_type != DwarfFileType::Dwo {
+                    ctx.violate("c17_routing", format!("{}: unit is not marked Dwo", what));
+                }
+                if !d.debug_aranges.reader().is_empty() || !d.debug_line_str.reader().is_empty() || !d.debug_names.reader().is_empty() {
+                    ctx.violate("c17_routing", format!("{}: sections absent from packages are not empty", what));
+                }
+            }
+        }
+        // a signature of the other index, and an absent one, are not found
+        for sig in [index_sigs(!tu)[0], index_sigs(!tu)[1], 0x7777_0000_0000_0001] {
+            let r = if tu {
+                p.find_tu(gimli::DebugTypeSignature(sig), parent).map(|o| o.is_some())
+            } else {
+                p.find_cu(gimli::DwoId(sig), parent).map(|o| o.is_some())
+            };
+            ev!(ctx, "absent {:#x} in {} index -> {:?}", sig, if tu { "tu" } else { "cu" }, r.as_ref().map_err(crate::ctx::err_name));
+            if !matches!(r, Ok(false)) {
+                ctx.violate("c17_routing", format!("signature {:#x} is not in the {} index but the lookup returned {:?}", sig, if tu { "tu" } else { "cu" }, r.map_err(|e| crate::ctx::err_name(&e))));
+            }
+        }
+    }
 }
